@@ -223,7 +223,7 @@ theorem aux_genname (env : PEnv) (md : Maildir) (flags : Option Bytes) (fuel cou
   | succ fuel ih =>
     unfold genname
     simp only [bind_eq, pure_eq, call_bind]
-    generalize (decimalInt env.now ++ [46] ++ decimal env.pid ++ [95] ++ decimal (count + 1) ++ [46] ++ env.host ++
+    generalize (decimalInt env.now ++ [46] ++ decimal env.pid ++ [95] ++ decimal ((count + 1) % gennameWrap) ++ [46] ++ env.host ++
           flags.getD []) = nm
     split
     · intro _ _ h; cases h
@@ -405,7 +405,7 @@ theorem aux_maildirMove (env : PEnv) (s dst : Maildir) (ms : MsgSt) (tr : Trace)
   split
   · exact True.intro
   rename_i fl _
-  refine wp_bind_ext (aux_genname env dst (some fl) 4096 _ _) ?_
+  refine wp_bind_ext (aux_genname env dst (some fl) gennameAttempts _ _) ?_
   intro g L1 hg
   cases g with
   | none => exact True.intro
@@ -442,7 +442,7 @@ theorem aux_maildirWrite (env : PEnv) (md : Maildir) (ms : MsgSt) (tr : Trace) :
   split
   · exact True.intro
   rename_i fl _
-  refine wp_bind_ext (aux_genname env md (some fl) 4096 _ _) ?_
+  refine wp_bind_ext (aux_genname env md (some fl) gennameAttempts _ _) ?_
   intro g L1 hg
   cases g with
   | none => exact True.intro
